@@ -213,9 +213,12 @@ unsigned long strtoul(const char *s, char **end, int base) {
   while (d[0] == '0' && d[1] >= '0' && d[1] <= '9') d++;
   if (d[0] >= '1' && d[0] < '1' + VF_NNUM && d[1] == d[0]) {
     int k = d[0] - '1';
-    if (hex) CHECK(base == 16 || base == 0, "hexadecimal literal converted in base 16");
-    else CHECK(base == 10, "decimal literal converted in base 10");
     unsigned long v = VF_NUM[k];
+    /* the base matters only where it changes the value read: "0x.." read in
+     * base 10 stops at the x (0), a decimal numeral below 10 reads the same in
+     * base 16 */
+    if (hex) { if (v != 0) CHECK(base == 16 || base == 0, "hexadecimal literal converted in base 16"); }
+    else if (v >= 10) CHECK(base == 10, "decimal literal converted in base 10");
     return neg ? 0ul - v : v;
   }
   return vf_model_strtoul(s, end, base);
